@@ -29,7 +29,7 @@ TIERS = {
     "thorough": {"runs": 8000, "batch": 1, "timeout_s": 1200, "cycles": 7, "shrink_budget": 80},
 }
 RULE = ("History = (functional x method x user-object kind x function kind x usage in {forward, forward+backward, "
-        "forward+graph-recording backward+second backward (autograd.grad, or for operators the accumulating .backward(create_graph=True) with the caller resetting .grad)} x persistent-or-rebuilt user object x debug mode on/off x method tuning knobs x LAPACK failing once per call x cycle length 1-3 x "
+        "forward+graph-recording backward+second backward (autograd.grad, or for operators the accumulating .backward(create_graph=True) with the caller resetting .grad)} x persistent-or-rebuilt user object x debug mode on/off x method tuning knobs x a dense LAPACK entry point (solve/cholesky/eigh/qr/inverse) failing once per call x the user's callee raising a domain-check exception at its k-th entry of every call (judged when the call survives it) x a second functional on the same objects at every second call of a cycle (one history in four) x cycle length 1-3 x "
         "release order), repeated for 5 (quick) cycles with the cyclic GC disabled; census of live torch.Tensor "
         "objects (gc.get_objects) whenever the result pool is empty. Violation iff the tensor count strictly "
         "increases on each of three consecutive cycles after the warm-up cycle, or iff on three consecutive cycles "
@@ -46,7 +46,8 @@ ASSUMPTIONS = [
 ]
 REAL = ["all xitorch functionals from /repo working tree", "torch autograd", "CPython reference counting"]
 STUB = ["the user's functions/modules/operators (xsim.actors)", "the cyclic garbage collector (pinned: disabled)",
-        "torch.linalg.solve (fails once per call at a drawn invocation in some histories)",
+        "torch.linalg.solve / cholesky / eigh / qr, torch.inverse (the k-th call of any of them fails once per call in some histories)",
+        "the user's callee failing at its k-th entry of every call (ValueError / RuntimeError / FloatingPointError / InjectedFault)",
         "the training loop (the history of calls and releases)"]
 
 
@@ -127,7 +128,7 @@ def draw_history(cs, cfg):
     sc["valseed"] = cs.draw(1000, "valseed")
     # one history in eight is dedicated to the internal-failure path (dense solve with shifts, LAPACK failing once)
     linalg_scenario = cs.bool("linalg_scenario", 1, 8)
-    sc["family"] = 1 if linalg_scenario else cs.weighted([4, 1, 1], "family")   # 0 function objects, 1 linear operators, 2 interp/squad
+    sc["family"] = 1 if linalg_scenario else cs.weighted([4, 2, 1], "family")   # 0 function objects, 1 linear operators, 2 interp/squad
     sc["kind2"] = None
     sc["composite"] = 0
     if sc["family"] == 0:
@@ -168,12 +169,37 @@ def draw_history(cs, cfg):
     # a LAPACK error (xitorch retries with a regularised matrix where it expects singular systems)
     sc["linalg_fault"] = 0
     if linalg_scenario:
-        sc["F"] = {"F": "solve", "method": cs.choice(["exactsolve", "custom_exactsolve"], "lm"),
-                   "E": not cs.bool("no_E", 1, 4), "bck": cs.choice([None, "exactsolve"], "lbck"), "knobs": {}}
-        sc["linalg_fault"] = cs.randint(1, 2, "linalg_k")
+        hermitian = AC.LO_KINDS[sc["kind"]] is not AC.LOWithRmv and sc["composite"] != 3
+        if hermitian and cs.bool("lapack_in_eigensolver", 1, 2):
+            # ... or an eigensolver whose orthogonalisation / Rayleigh-Ritz / overlap factorisation fails once
+            sc["F"] = {"F": "symeig", "method": cs.choice(["davidson", "exacteig", "custom_exacteig"], "lem"),
+                       "neig": cs.randint(1, 2, "lneig"), "M": cs.bool("lwithM", 1, 3), "knobs": {}}
+            sc["linalg_fault"] = cs.randint(1, 4, "lapack_k")
+        else:
+            sc["F"] = {"F": "solve", "method": cs.choice(["exactsolve", "custom_exactsolve"], "lm"),
+                       "E": not cs.bool("no_E", 1, 4), "bck": cs.choice([None, "exactsolve"], "lbck"), "knobs": {}}
+            sc["linalg_fault"] = cs.randint(1, 2, "linalg_k")
+    elif cs.bool("lapack_fault", 1, 2 if sc["family"] == 1 else 8):
+        # ... and in any other history: the k-th call of ANY dense LAPACK entry point (solve / cholesky / eigh / qr /
+        # inverse) made by a call fails once.  Judged when the call survives it (a rescue, a fall-back), counted when
+        # the error reaches the caller
+        sc["linalg_fault"] = cs.randint(1, 4, "lapack_k")
+    # the user's callee fails at its k-th entry of every call with an exception class a domain check would raise.
+    # Today every functional lets it through (the call is aborted: counted, not judged); a library that absorbs the
+    # failure and returns a result is judged like any other returning call
+    sc["callee_fault"] = None
+    if not sc["linalg_fault"] and sc["family"] != 2 and cs.bool("callee_fault", 1, 8):
+        sc["callee_fault"] = (1 + cs.draw(8, "callee_k"), ["value", "runtime", "fpe", "raise"][cs.draw(4, "callee_cls")])
     sc["persist"] = cs.bool("persistent_object", 1, 2)
     sc["cycle_len"] = cs.randint(1, 3, "cycle_len")
     sc["release"] = [cs.draw(3, "rel") for _ in range(3)]
+    # a training loop that uses two functionals on the same objects: every second call of a cycle is another functional
+    # (state that one of them leaves on the shared object / wrapper / operator is then met by the other)
+    sc["F2"] = None
+    if sc["family"] in (0, 1) and not linalg_scenario and cs.bool("second_functional", 1, 4):
+        fam = 1 if sc["family"] == 1 else 0
+        sc["F2"] = C10.draw_functional(cs, {"family": fam, "kind": sc["kind"], "composite": sc["composite"]})
+        sc["cycle_len"] = max(sc["cycle_len"], 2)
     sc["opseed"] = cs.draw(1000, "opseed")
     # the user's object keeps a differentiable tensor derived from the result (model.loss = f(y)): the object then
     # reaches the functional's autograd node, which holds the object's method - a cycle through the C++ graph
@@ -181,7 +207,7 @@ def draw_history(cs, cfg):
     return sc
 
 
-def one_call(sc, env_holder):
+def one_call(sc, env_holder, j=0):
     """one call of the functional with the drawn usage; returns everything the caller keeps
     (outputs and gradients) as a list - dropping that list releases the call"""
     if sc["persist"] and env_holder:
@@ -192,29 +218,45 @@ def one_call(sc, env_holder):
             env_holder.append(env)
     torch.manual_seed(sc["opseed"])
     F = sc["F"]
+    if sc.get("F2") is not None and j % 2 == 1:
+        F = sc["F2"]
+        SIM.count("reach.second_functional_on_the_same_objects")
     if sc.get("linalg_fault"):
-        return _with_linalg_fault(sc, env)
-    return _one_call_body(sc, env)
+        return _with_linalg_fault(sc, env, F)
+    if sc.get("callee_fault"):
+        k, cls = sc["callee_fault"]
+        nfired = len(SIM.fired)
+        SIM.set_plan({SIM.seq + k: cls})
+        try:
+            out = _one_call_body(sc, env, F)
+        finally:
+            SIM.set_plan({})
+            if len(SIM.fired) > nfired:
+                SIM.count("fault.callee_" + cls)
+        if len(SIM.fired) > nfired:
+            SIM.count("reach.call_survived_callee_failure")
+        return out
+    return _one_call_body(sc, env, F)
 
 
 from xsim.probe import FaultyLinalgSolve as _FaultyLinalgSolve
 
 
-def _with_linalg_fault(sc, env):
+def _with_linalg_fault(sc, env, F=None):
     w = _FaultyLinalgSolve(sc["linalg_fault"])
-    torch.linalg.solve = w
+    w.__enter__()
     try:
-        out = _one_call_body(sc, env)
+        out = _one_call_body(sc, env, F)
     finally:
-        torch.linalg.solve = w.orig
+        w.__exit__()
     SIM.count("fault.linalg_error", w.fired)
     if w.fired:
         SIM.count("reach.call_survived_linalg_error")
     return out
 
 
-def _one_call_body(sc, env):
-    F = sc["F"]
+def _one_call_body(sc, env, F=None):
+    F = sc["F"] if F is None else F
     if sc["family"] == 2:
         from xitorch.interpolate import Interp1D
         from xitorch.integrate import SQuad
@@ -296,7 +338,7 @@ def run(cs, cfg):
             for cyc in range(cfg["cycles"]):
                 pool = []
                 for j in range(sc["cycle_len"]):
-                    keep, diff = one_call(sc, env_holder)
+                    keep, diff = one_call(sc, env_holder, j)
                     differentiable = differentiable or diff
                     pool.append(keep)
                     keep = None
@@ -319,6 +361,8 @@ def run(cs, cfg):
     for k_, v_ in SIM.counters.items():
         cnt(k_, v_)
     decoded["linalg_fault"] = sc.get("linalg_fault", 0)
+    decoded["callee_fault"] = sc.get("callee_fault")
+    decoded["second_functional"] = None if sc.get("F2") is None else (sc["F2"]["F"], str(sc["F2"].get("method", "")))
     decoded["counts"] = counts
     decoded["bytes"] = nbytes
     decoded["events"] = SIM.seq
